@@ -1,2 +1,4 @@
 import NetqasmVerif.Model.Basic
 import NetqasmVerif.Model.Codec
+import NetqasmVerif.Model.Cyc
+import NetqasmVerif.Model.Gates
